@@ -393,7 +393,11 @@ pub fn run(rng: &mut Rng, out: &mut Out, thorough: bool) {
     // ---- widths 1..16 x alphabets x lengths
     let alphas = [Alpha::Dense, Alpha::Sparse, Alpha::Single, Alpha::BoundLow, Alpha::BoundHigh, Alpha::Skewed];
     for w in 1..=16u32 {
-        for a in alphas.iter() {
+        for (ak, a) in alphas.iter().enumerate() {
+            // wide alphabets are expensive to replay (the offset table has 2^w entries): half of the kinds per width in quick
+            if w >= 13 && !thorough && (ak as u32 + w) % 2 == 1 {
+                continue;
+            }
             let mut lens: Vec<usize> = Vec::new();
             if w <= 12 {
                 lens.push(*rng.pick(&[1usize, 2, 3]));
